@@ -55,7 +55,7 @@ def main():
                 "design_ref": p.design_ref,
             },
             "level_note": p.level_note,
-            "technique": "Lean 4 theorems over a model of the code; model tied to /repo by translator (tables/constants) and differential correspondence run",
+            "technique": "machine-checked proof in Lean 4: theorems (induction / invariants / refinement, unbounded) over an executable model of the code; the model is tied to /repo's current source on every run by a translator (tables, constants and the match-arm decision tables, with kernel-checked agreement lemmas between the hand-written model and the regenerated tables) and by a differential correspondence run of model, specification and real code on the same case lines; a broken obligation or correspondence triggers the failing-input search",
         })
     na = []
     pending = json.load(open(os.path.join(ROOT, "tools", "not_claimed.json")))
